@@ -147,7 +147,7 @@ def run(tier, rep):
         args.append({"shard": i, "tier": tier, "clients": [8, 16, 32][i % 3], "generations": 600 if tier == "quick" else 6000,
                      "period_us": [0, 200, 1000, 2000][i % 4], "clear_every": 0 if i % 4 else 50, "delays": i % 2 == 0,
                      "delay_permille": 500, "delay_us": 1500, "own_calls": i % 3 != 2, "reject_permille": 300 if i % 4 in (1, 2) else 0})
-    for res in sandbox.run_many("vf.props.c10", "worker", args, workers=shards, timeout=1500):
+    for res in sandbox.run_many("vf.props.c10", "worker", args, workers=shards, timeout=1500 if tier == "quick" else 9000):
         rep.merge_worker(res)
     if rep.coverage.get("proxied_requests_straddling_a_rotation", 0) < 300 and not rep.violations:
         rep.inconclusive.append("fewer than 300 requests straddled a rotation")
